@@ -168,7 +168,7 @@ func gOracle(top []*ggroup, mode gmode) (texts map[int]string, names map[string]
 }
 
 func gPatterns(level int) [][]*ggroup {
-	kinds := []gkind{{"U", ""}, {"N", "n"}, {"N", "m"}, {"E", "2"}, {"E", "5"}, {"X", ""}, {"P", "n"}}
+	kinds := []gkind{{"U", ""}, {"N", "n"}, {"N", "m"}, {"E", "1"}, {"E", "2"}, {"E", "3"}, {"E", "5"}, {"X", ""}, {"P", "n"}}
 	var out [][]*ggroup
 	maxLen := 3
 	if level >= 2 {
@@ -206,6 +206,18 @@ func gPatterns(level int) [][]*ggroup {
 		}
 	}
 	rec(nil)
+	// more than nine groups: two-digit references
+	for _, named := range []int{-1, 4, 10} {
+		var gs []*ggroup
+		for i := 0; i < 11; i++ {
+			k := gkind{"U", ""}
+			if i == named {
+				k = gkind{"N", "n"}
+			}
+			gs = append(gs, &ggroup{gkind: k, letter: byte('a' + i)})
+		}
+		out = append(out, gs)
+	}
 	return out
 }
 
@@ -364,7 +376,7 @@ func TestStandinGroups(t *testing.T) {
 					}
 				}
 				// G-replace
-				rs := []string{"${" + strconv.Itoa(nums[i]) + "}"}
+				rs := []string{"${" + strconv.Itoa(nums[i]) + "}", "$" + strconv.Itoa(nums[i])}
 				if names[i] != "" {
 					rs = append(rs, "${"+names[i]+"}")
 				}
